@@ -1,5 +1,5 @@
 /- C04 driver: `C04 run …` / `C04 spec …` (the C01 machine and batch reader, limits in the cfg),
-   `C04 gzip <limit> [[chunk,[[out,tail],…]],…]` → `ok [delivered,…] <rejected> <size>`,
+   `C04 gzip <limit> [[chunk,[[out,tail],…]],…]` → `ok [delivered,…] <rejected> <size> <within> [events the connection adds on refusal]`,
    `C04 within <cfg> <nreq> [[i,len],…]` → `ok T|F`,
    `C04 eff <cfg> <i>` → `ok <maxHeader> <effective body limit of request i>`.
    `<cfg>` is either C01's `[maxHeader,maxBody,[override|~,…],noKeepAlive]` (effective limits) or the raw options
@@ -63,7 +63,8 @@ def handle (toks : List String) : String :=
         match decLimit lim, calls.list? >>= (·.mapM decCall) with
         | some limit, some cs =>
           let g := gzRun limit cs {}
-          ok [.list (g.delivered.map V.ofByteNats), V.ofBool g.rejected, .int g.size, V.ofBool (Spec.gzWithin limit g)]
+          ok [.list (g.delivered.map V.ofByteNats), V.ofBool g.rejected, .int g.size, V.ofBool (Spec.gzWithin limit g),
+              .list ((gzRefusal {} g).out.reverse.map C01.Drv.encEv)]
         | _, _ => err "bad-gzip"
       | [.atom "within", c, n, ds] =>
         match decAnyCfg c, n.nat?, ds.list? >>= (·.mapM (fun d => do
